@@ -22,20 +22,37 @@ Section Shift.
   Lemma ty_is_bool_shift x : ty_is_bool (nth_error G x) = true -> ty_is_bool (nth_error G' (b + x)) = true.
   Proof. destruct (nth_error G x) as [t|] eqn:E; [|discriminate]. intros H. now rewrite (nth_shift x t E). Qed.
   Lemma pure_lit_shift e : pure_lit (shift_expr b e) = pure_lit e.
-  Proof. induction e as [u v|x|op e IH|op l IHl r IHr]; cbn; try reflexivity; [exact IH|now rewrite IHl, IHr]. Qed.
+  Proof. induction e as [u v|x|op e IH|op l IHl r IHr|b0 lo n ki i IHi]; cbn; try reflexivity; [exact IH|now rewrite IHl, IHr]. Qed.
+  Lemma has_var_shift e : has_var (shift_expr b e) = has_var e.
+  Proof. induction e as [u v|x|op e IH|op l IHl r IHr|b0 lo n ki i IHi]; cbn; try reflexivity; [exact IH|now rewrite IHl, IHr]. Qed.
+  Lemma idx_static_shift lo n i : idx_static_ok lo n (shift_expr b i) = idx_static_ok lo n i.
+  Proof.
+    destruct i as [u v|x|op e|op l r|b0 lo0 n0 ki i0]; try reflexivity.
+    - unfold idx_static_ok. exact (has_var_shift (EUn op e)).
+    - unfold idx_static_ok. exact (has_var_shift (EBin op l r)).
+  Qed.
+  Lemma arr_ok_shift b0 n k : arr_ok G b0 n k = true -> arr_ok G' (b + b0) n k = true.
+  Proof.
+    unfold arr_ok. intros H. apply andb_prop in H as [Hn H]. rewrite Hn. cbn [andb].
+    apply forallb_forall. intros j Hj. pose proof (proj1 (forallb_forall _ _) H j Hj) as Hjk. cbn beta in Hjk.
+    destruct (nth_error G (b0 + j)) as [t|] eqn:E; [|discriminate].
+    replace (b + b0 + j) with (b + (b0 + j)) by lia. rewrite (nth_shift (b0 + j) t E). exact Hjk.
+  Qed.
 
   Lemma tint_shift : forall e k, tint strict G k e = true -> tint strict G' k (shift_expr b e) = true.
   Proof.
-    induction e as [u v|x|op e IH|op l IHl r IHr]; intros k H; cbn [shift_expr].
+    induction e as [u v|x|op e IH|op l IHl r IHr|b0 lo n ki i IHi]; intros k H; cbn [shift_expr].
     - exact H.
     - cbn [tint] in *. now apply ty_is_int_shift.
     - destruct op; cbn [tint] in *; [|discriminate]. apply andb_prop in H as [H1 H2]. now rewrite H1, (IH k H2).
     - cbn [tint] in *. apply andb_prop in H as [H H4]. apply andb_prop in H as [H H3]. apply andb_prop in H as [H1 H2].
       rewrite H1, (IHl k H2), (IHr k H3), !pure_lit_shift, H4. reflexivity.
+    - cbn [tint] in *. apply andb_prop in H as [H H4]. apply andb_prop in H as [H H3]. apply andb_prop in H as [H1 H2].
+      rewrite (arr_ok_shift b0 n k H1), H2, idx_static_shift, H3, (IHi ki H4). reflexivity.
   Qed.
   Lemma tbool_shift : forall e, tbool strict G e = true -> tbool strict G' (shift_expr b e) = true.
   Proof.
-    induction e as [u v|x|op e IH|op l IHl r IHr]; intros H; cbn [shift_expr].
+    induction e as [u v|x|op e IH|op l IHl r IHr|b0 lo n ki i IHi]; intros H; cbn [shift_expr]; [| | | |discriminate].
     - exact H.
     - cbn [tbool] in *. now apply ty_is_bool_shift.
     - destruct op; cbn [tbool] in *; [discriminate|]. exact (IH H).
@@ -54,6 +71,10 @@ Section Shift.
     intros st. pattern st. apply stmt_nested_ind; clear st.
     - intros x e il H. cbn [tstmt] in H. cbn [shift_stmt tstmt].
       destruct (nth_error G x) as [[|k]|] eqn:E; [| |discriminate]; rewrite (nth_shift x _ E); [now apply tbool_shift|now apply tint_shift].
+    - intros b0 lo n ki i e il H. cbn [tstmt] in H. cbn [shift_stmt tstmt].
+      destruct (var_kind G b0) as [k|] eqn:Ek; [|discriminate]. rewrite (var_kind_shift b0 k Ek).
+      apply andb_prop in H as [H H5]. apply andb_prop in H as [H H4]. apply andb_prop in H as [H H3]. apply andb_prop in H as [H1 H2].
+      rewrite (arr_ok_shift b0 n k H1), H2, idx_static_shift, H3, (tint_shift i ki H4), (tint_shift e k H5). reflexivity.
     - intros c t elifs el Ht Helifs Hel il H. rewrite tstmt_if in H. apply andb_prop in H as [H H4]. apply andb_prop in H as [H H3]. apply andb_prop in H as [H1 H2].
       rewrite shift_if, tstmt_if, (tbool_shift c H1). cbn [andb].
       assert (Hblock : forall l, Forall (fun st => forall il, tstmt strict G il st = true -> tstmt strict G' il (shift_stmt b st) = true) l ->
@@ -103,6 +124,7 @@ Proof.
   { induction 1 as [|s1 l Hs _ IH]; intros Hb; [reflexivity|]. cbn [tblock] in *. apply andb_prop in Hb as [Hb1 Hb2]. now rewrite (Hs Hb1), (IH Hb2). }
   intros st. pattern st. apply stmt_nested_ind; clear st.
   - intros x e H. exact H.
+  - intros b0 lo n ki i e H. exact H.
   - intros c t elifs el Ht Helifs Hel H. rewrite tstmt_if in *. apply andb_prop in H as [H H4]. apply andb_prop in H as [H H3]. apply andb_prop in H as [H1 H2].
     rewrite H1, (Hblock t Ht H2), (Hblock el Hel H4), andb_true_r. cbn [andb].
     clear H2 H4 Ht Hel. induction Helifs as [|[c' blk] l Hb _ IH]; [reflexivity|]. cbn [telifs] in *. apply andb_prop in H3 as [H3 H33]. apply andb_prop in H3 as [H31 H32].
